@@ -385,3 +385,5 @@ ASSUMPTIONS = ['component identity is compared through (class name, tag) because
                'a reference is only assigned an instance of its declared type (the descriptor asserts it)',
                'init_methods is resolved by ordinary attribute lookup: a subclass that defines init_methods replaces the inherited dictionary']
 OUTSIDE = ['controllers whose entity/world attributes were never set', 'Prototype.__init__ arguments (user code)']
+
+TECHNIQUE = 'bounded symbolic execution (symx/z3): twin-world differential for shorthands, symbolic Prototype recipes, symbolic real dt'
